@@ -82,6 +82,8 @@ class Check(core.CheckBase):
         shuffles = 200 if self.tier == 'quick' else 5000
         for index in range(shuffles):
             yield {'kind': 'shuffle', 'index': index}
+        for hash_seed in ((101, ) if self.tier == 'quick' else (101, 202, 303, 0)):
+            yield {'kind': 'transported', 'hash_seed': hash_seed}
 
     def judge(self, case):  # pylint: disable=too-many-branches,too-many-locals
         found = []
@@ -97,6 +99,55 @@ class Check(core.CheckBase):
                 found.extend(self.judge_triple(case['a'], name_b, name_c))
         elif case['kind'] == 'shuffle':
             found.extend(self.judge_shuffle(case))
+        elif case['kind'] == 'transported':
+            found.extend(self.judge_transported(case))
+        return found
+
+    def judge_transported(self, case):
+        """Versions that were compared, sorted and hashed in ANOTHER interpreter (other string hash seed) and arrive here by
+        pickle, and copies made with copy / deepcopy, are the same versions: equal to fresh ones, same hash, found in their sets,
+        same place in the order."""
+        import copy  # pylint: disable=import-outside-toplevel
+        import os  # pylint: disable=import-outside-toplevel
+        import pickle  # pylint: disable=import-outside-toplevel
+        import subprocess  # pylint: disable=import-outside-toplevel
+        import sys  # pylint: disable=import-outside-toplevel
+        from vmon import bootstrap  # pylint: disable=import-outside-toplevel
+        found = []
+        program = ('import sys, pickle; sys.path.insert(0, %r); from vmon import bootstrap; bootstrap.init(); '
+                   'from cryptodatahub.tls.version import TlsVersion; from cryptoparser.tls.version import TlsProtocolVersion; '
+                   'versions = [TlsProtocolVersion(member) for member in TlsVersion]; sorted(versions); max(versions); '
+                   '[hash(v) for v in versions]; set(versions); print("C17CHILD " + pickle.dumps(versions, 2).hex())' % bootstrap.VERIF)
+        env = dict(os.environ, PYTHONHASHSEED=str(case['hash_seed']))
+        proc = subprocess.run([sys.executable, '-c', program], env=env, cwd=bootstrap.VERIF, capture_output=True, text=True,
+                              timeout=300, check=False)
+        line = [l for l in proc.stdout.splitlines() if l.startswith('C17CHILD ')]
+        if not line:
+            self.inconclusive.append('transport child failed: %s' % proc.stderr[-200:])
+            return found
+        arrived = pickle.loads(bytes.fromhex(line[0][len('C17CHILD '):]))
+        fresh = [self.make(name) for name in self.names]
+        groups = [('pickled in another interpreter', arrived)]
+        used = [self.make(name) for name in self.names]
+        sorted(used)
+        [hash(v) for v in used]
+        groups.append(('copy.copy', [copy.copy(v) for v in used]))
+        groups.append(('copy.deepcopy', copy.deepcopy(used)))
+        groups.append(('pickle round trip', pickle.loads(pickle.dumps(used, 2))))
+        holder = set(fresh)
+        for label, versions in groups:
+            self.stats['transported_versions'] += len(versions)
+            self.observe(('transported', label, case['hash_seed']), True, dict(case, how=label))
+            for name, local, other in zip(self.names, fresh, versions):
+                if not other == local or other != local:
+                    found.append(self.violation('transported|not-equal', '%s %s is not equal to a fresh %s' % (name, label, name), case))
+                    break
+                if hash(other) != hash(local) or other not in holder:
+                    found.append(self.violation('transported|hash', 'a %s that was %s equals a fresh one but hashes differently / is not '
+                                                'found in a set of fresh versions' % (name, label), case))
+                    break
+            if [v.version.name for v in sorted(versions)] != [v.version.name for v in sorted(fresh)]:
+                found.append(self.violation('transported|order', 'versions that were %s sort differently' % label, case))
         return found
 
     def judge_pair(self, name_a, name_b):
